@@ -159,4 +159,5 @@ def load(config="baseline", name="gamedig-lib", repo=None):
         if doc["n_mir"] < floor:
             raise RuntimeError("facts for %s (%s) have only %d bodies (< floor %d)" % (name, config, doc["n_mir"], floor))
         _loaded[k] = Crate(doc)
+        _loaded[k].config = config
     return _loaded[k]
